@@ -145,14 +145,16 @@ def xz_bytes(data, preset=6, check=lzma.CHECK_CRC64):
     return lzma.compress(data, format=lzma.FORMAT_XZ, preset=preset, check=check)
 
 
-def xz_blocks_bytes(data, block_size=4096, check="crc32"):
+def xz_blocks_bytes(data, block_size=4096, check="crc32", threads=0):
     """single-stream .xz with several blocks, made by the xz command line tool (python's lzma writes one block); None if
     the tool is not installed"""
     import shutil
     exe = shutil.which("xz")
     if not exe:
         return None
-    p = subprocess.run([exe, "-c", "--block-size=%d" % block_size, "--check=" + check], input=data, stdout=subprocess.PIPE,
+    # (threads > 0: the multi-threaded writer -- the default of current XZ Utils -- records the compressed and uncompressed
+    #  size of every block in its block header)
+    p = subprocess.run([exe, "-c", "--block-size=%d" % block_size, "--check=" + check] + (["-T%d" % threads] if threads else []), input=data, stdout=subprocess.PIPE,
                        stderr=subprocess.PIPE)
     return p.stdout if p.returncode == 0 and p.stdout else None
 
